@@ -5,7 +5,8 @@
    that range is empty; the single NS bin contains the NS mass.
    Statements only; proofs are `exact` of lemmas in Proofs/BinsProofs2.v. *)
 From Coq Require Import List Reals Sorted Arith.
-From SSP Require Import Num Model.Bins Model.BinsSpec Proofs.BinsProofs2.
+From Coq Require PrimFloat.
+From SSP Require Import Num FloatFun Model.Bins Model.BinsSpec Proofs.BinsProofs2 Proofs.FindingWitnesses.
 Import ListNotations.
 Local Open Scope R_scope.
 
@@ -48,3 +49,12 @@ Theorem C13_seg_edges : forall J sp a b n, (1 <= n)%nat -> 0 < a -> a < b ->
   length s = S n /\ StronglySorted Rlt s /\ hd 0 s = a /\ last s 0 = b.
 Proof. exact seg_edges_spec. Qed.
 Print Assumptions C13_seg_edges.
+
+(* known finding wd_bin_degenerate_edge_at_wd_max (the hypothesis `fst p <> wd_up` of C13_carve_WD is needed): float witness *)
+Theorem C13_wd_bin_degenerate_refuted :
+  match carve_WD (O:=F_ops) deg_ms deg_wd_up with
+  | Ok wd => match last wd (deg_zero, deg_zero) with (lo, up) => PrimFloat.eqb lo up = true /\ length wd = 2%nat end
+  | Err _ => False
+  end.
+Proof. exact wd_bin_degenerate_refuted. Qed.
+Print Assumptions C13_wd_bin_degenerate_refuted.
